@@ -235,6 +235,22 @@ class Run:
         # corpus first (minimised past failures + model-guided witnesses)
         for cf in sorted(glob.glob(os.path.join(VERIF, "corpus", name, "*.txt"))):
             jobs.append(("corpus:" + os.path.basename(cf), ["-in", cf]))
+        if self.replay is not None:
+            # --replay FILE: a replay document written by add_violation (its case line is re-run
+            # on the real code, the model and the oracle) or a plain text file of case lines
+            rf = None
+            try:
+                doc = json.load(open(self.replay))
+                if isinstance(doc, dict) and doc.get("case") and doc.get("correspondence", name) == name:
+                    os.makedirs(os.path.join(self.rundir, name), exist_ok=True)
+                    rf = os.path.join(self.rundir, name, "replay.txt")
+                    open(rf, "w").write(doc["case"] + "\n")
+            except ValueError:
+                rf = self.replay
+            except OSError:
+                pass
+            if rf:
+                jobs.append(("replay:" + os.path.basename(self.replay), ["-in", rf]))
         if self.replay is None:
             per = max(1, n // shards)
             for s in range(shards):
